@@ -1,12 +1,12 @@
 package main
 
 import (
-	"sort"
 	"fmt"
 	"go/constant"
 	"go/token"
 	"go/types"
 	"math/big"
+	"sort"
 	"strings"
 
 	"golang.org/x/tools/go/packages"
@@ -957,7 +957,22 @@ func (fc *FCtx) specPureCall(name string, n *SNode, env *Env) (Val, bool) {
 		}
 		wf = append(wf, fc.U.WF(a))
 	}
-	fc.pureFacts = append(fc.pureFacts, implies(and(append(wf, reqs...)...), and(ens...)))
+	fact := implies(and(append(wf, reqs...)...), and(ens...))
+	// inside a quantifier or a spec-function definition the arguments mention bound variables: the fact is
+	// valid for every value of those, so it is stated universally (trigger: the application itself)
+	var qs []string
+	seen := map[string]bool{}
+	for _, bv := range env.bound {
+		if (strings.HasPrefix(bv.T, "q_") || strings.HasPrefix(bv.T, "sp_")) && !seen[bv.T] && hasToken(res.T, bv.T) {
+			seen[bv.T] = true
+			qs = append(qs, fmt.Sprintf("(%s %s)", bv.T, bv.S.Name))
+		}
+	}
+	if len(qs) > 0 {
+		sort.Strings(qs)
+		fact = fmt.Sprintf("(forall (%s) (! %s :pattern (%s)))", strings.Join(qs, " "), fact, res.T)
+	}
+	fc.pureFacts = append(fc.pureFacts, fact)
 	return res, true
 }
 
@@ -1037,4 +1052,22 @@ func (fc *FCtx) lookupFuncByName(pkg *packages.Package, name string) *types.Func
 		}
 	}
 	return nil
+}
+
+// hasToken: does the SMT text contain the identifier as a whole token?
+func hasToken(text, id string) bool {
+	for i := 0; ; {
+		j := strings.Index(text[i:], id)
+		if j < 0 {
+			return false
+		}
+		j += i
+		end := j + len(id)
+		okL := j == 0 || strings.ContainsRune(" ()", rune(text[j-1]))
+		okR := end == len(text) || strings.ContainsRune(" ()", rune(text[end]))
+		if okL && okR {
+			return true
+		}
+		i = end
+	}
 }
